@@ -1,11 +1,31 @@
-from jsim.envs.base import Adapter
+"""Knapsack: rules written from docs/environments/knapsack.md and the class docstring.
+
+num_items items with weights and values in [0, 1), a bag of capacity total_budget. The action is the index
+of the next item to pack. It is valid iff the item is not packed yet and its weight is not larger than the
+remaining capacity. The episode ends when no further item can be added or the chosen action is invalid.
+Reward: dense = value of the item packed at this step; sparse = sum of the values of the packed items at the
+end of the episode; in both cases 0 if the action is invalid.
+"""
+from __future__ import annotations
+
+from typing import Any, Optional
+
+import numpy as np
+
 from jsim.envs._mk import cfg
+from jsim.envs.base import Adapter
 
 
 class A(Adapter):
     name = "Knapsack"
     mask_mode = "flat"
     terminate_on_invalid = True
+    has_reaction = True
+    has_invalid_effect = True
+    has_constraints = True
+    has_objective = True
+    has_model = True
+    has_observer = True
 
     def configs(self):
         return [cfg("n50b12", True, n=50, b=12.5, rew="dense"), cfg("n5b1sparse", True, n=5, b=1.0, rew="sparse"),
@@ -20,3 +40,164 @@ class A(Adapter):
 
     def horizon(self, env, c):
         return c["n"]
+
+    # ---- rules ---------------------------------------------------------------------------------
+    def legal(self, s: Any, env: Any) -> np.ndarray:
+        w = np.asarray(s.weights)
+        packed = np.asarray(s.packed_items).astype(bool)
+        # both sides are the float32 numbers held by the state: an exact comparison, no arithmetic involved
+        return ~packed & (w <= np.asarray(s.remaining_budget))
+
+    def describe(self, s, env, idx):
+        i = int(idx[0])
+        return (f"item {i}: weight {float(np.asarray(s.weights)[i])!r}, packed {bool(np.asarray(s.packed_items)[i])}, "
+                f"remaining budget {float(s.remaining_budget)!r}")
+
+    PROBLEM_FIELDS = ("weights", "values", "packed_items", "remaining_budget")
+
+    def _untouched(self, ps: Any, s: Any) -> Optional[str]:
+        for f in self.PROBLEM_FIELDS:
+            a, b = np.asarray(getattr(ps, f)), np.asarray(getattr(s, f))
+            if a.dtype != b.dtype or a.shape != b.shape or a.tobytes() != b.tobytes():
+                return f
+        return None
+
+    # ---- C04 (b) -----------------------------------------------------------------------------------
+    def reaction_invalid(self, ps, action, agent, s, ts, env, cfg):
+        # a valid move puts the item into the bag; the env rejected the move iff the item was not newly packed
+        a = int(action)
+        newly = bool(np.asarray(s.packed_items)[a]) and not bool(np.asarray(ps.packed_items)[a])
+        return not newly
+
+    # ---- C05 -------------------------------------------------------------------------------------
+    def invalid_effect(self, ps, action, illegal, s, ts, env, cfg):
+        if int(ts.step_type) != 2:
+            return ("invalid_move_not_terminal", f"step_type {int(ts.step_type)} after illegal item {int(action)}")
+        if float(ts.reward) != 0.0:
+            return ("invalid_move_reward", f"reward {float(ts.reward)} != 0 on an illegal move (documented for both reward functions)")
+        if float(ts.discount) != 0.0:
+            return ("invalid_move_discount", f"discount {float(ts.discount)} != 0 on the terminal step")
+        f = self._untouched(ps, s)
+        if f is not None:
+            return ("invalid_move_changed_state", f"state.{f} changed by an illegal move: {np.asarray(getattr(ps, f)).tolist()} -> {np.asarray(getattr(s, f)).tolist()}")
+        return None
+
+    # ---- C06 -------------------------------------------------------------------------------------
+    def constraints(self, hist, env, cfg):
+        s, s0 = hist[-1].state, hist[0].state
+        B = float(cfg["b"])
+        w = np.asarray(s.weights).astype(np.float64)
+        packed = np.asarray(s.packed_items).astype(bool)
+        if np.asarray(s.weights).tobytes() != np.asarray(s0.weights).tobytes() or np.asarray(s.values).tobytes() != np.asarray(s0.values).tobytes():
+            return ("instance_changed", "weights / values differ from the reset state")
+        acts = [int(r.action) for r in hist[1:]]
+        if len(set(acts)) != len(acts):
+            d = [a for a in acts if acts.count(a) > 1][0]
+            return ("item_packed_twice", f"masked-in item {d} was chosen twice (history {acts})")
+        if set(np.flatnonzero(packed).tolist()) != set(acts):
+            return ("packed_set_differs_from_history", f"packed_items {np.flatnonzero(packed).tolist()} vs items chosen in the history {sorted(acts)}")
+        total = float(w[packed].sum())
+        # the state keeps float32 numbers; the bag arithmetic of a correct implementation may round: relative 1e-5
+        if total > B + 1e-5 * max(1.0, B):
+            return ("over_budget", f"total weight of the packed items {total!r} exceeds the budget {B!r}")
+        if len(hist) > 1 and int(hist[-1].ts.step_type) == 2:
+            # ended by completion: no further item can be added (clear cases only: margin for float32 rounding)
+            rem = B - total
+            fits = np.flatnonzero(~packed & (w <= rem - 1e-4 * max(1.0, B)))
+            if len(fits):
+                i = int(fits[0])
+                return ("ended_although_item_fits", f"episode ended but unpacked item {i} (weight {w[i]!r}) fits the remaining capacity {rem!r}")
+        return None
+
+    # ---- C08 -------------------------------------------------------------------------------------
+    def objective(self, hist, env, cfg):
+        if int(hist[-1].ts.step_type) != 2:
+            return None
+        s = hist[-1].state
+        packed = np.asarray(s.packed_items).astype(bool)
+        return float(np.asarray(s.values).astype(np.float64)[packed].sum())
+
+    def sparse_twin(self, c):
+        other = "sparse" if c["rew"] == "dense" else "dense"
+        d = dict(c)
+        d["rew"] = other
+        d["id"] = f"{c['id']}~{other}"
+        d["quick"] = False
+        return d
+
+    # ---- C09 -------------------------------------------------------------------------------------
+    def model_step(self, ps, action, s, ts, env, cfg):
+        a = int(action)
+        w, v = np.asarray(ps.weights), np.asarray(ps.values)
+        packed = np.asarray(ps.packed_items).astype(bool)
+        rem = np.asarray(ps.remaining_budget)
+        if not self.legal(ps, env)[a]:
+            # terminate-on-invalid: reward / done (the docs also promise nothing is packed; C05 judges the state)
+            if int(ts.step_type) != 2:
+                return ("termination", f"illegal item {a} did not end the episode")
+            if float(ts.reward) != 0.0:
+                return ("reward", f"reward {float(ts.reward)} after an illegal move, expected 0")
+            return None
+        if np.asarray(s.weights).tobytes() != w.tobytes() or np.asarray(s.values).tobytes() != v.tobytes():
+            return ("instance_changed", "weights / values changed during a step")
+        np_ = packed.copy()
+        np_[a] = True
+        if not np.array_equal(np.asarray(s.packed_items).astype(bool), np_):
+            return ("packed_items", f"packed_items {np.flatnonzero(np.asarray(s.packed_items)).tolist()} after packing item {a}, expected {np.flatnonzero(np_).tolist()}")
+        want_rem = float(rem) - float(w[a])
+        if not np.isclose(float(s.remaining_budget), want_rem, rtol=1e-5, atol=1e-6):
+            return ("remaining_budget", f"remaining_budget {float(s.remaining_budget)!r} after packing weight {float(w[a])!r} from {float(rem)!r}, expected {want_rem!r}")
+        # done iff no unpacked item fits; an item whose weight is within rounding distance of the remaining
+        # capacity may go either way (float32 subtraction), so such successors are not judged on termination
+        wf = w.astype(np.float64)
+        tol = 1e-5 * max(1.0, abs(want_rem)) + 1e-6
+        clear_fit = bool((~np_ & (wf <= want_rem - tol)).any())
+        border = bool((~np_ & (np.abs(wf - want_rem) < tol)).any())
+        last = int(ts.step_type) == 2
+        if clear_fit and last:
+            return ("termination", f"episode ended after a legal move although an unpacked item still fits (remaining {want_rem!r})")
+        if not clear_fit and not border and not last:
+            return ("termination", f"episode continues although no unpacked item fits the remaining capacity {want_rem!r}")
+        if cfg["rew"] == "dense":
+            want_reward = float(v[a])
+        else:
+            want_reward = float(v.astype(np.float64)[np_].sum()) if last else 0.0
+        if not np.isclose(float(ts.reward), want_reward, rtol=1e-5, atol=1e-6):
+            return ("reward", f"reward {float(ts.reward)!r} expected {want_reward!r} ({cfg['rew']} reward, item {a}, done={last})")
+        return None
+
+    # ---- C11 -------------------------------------------------------------------------------------
+    def end_cause(self, ps, action, s, ts, env, cfg):
+        if not self.legal(ps, env)[int(action)]:
+            return "invalid_action"
+        if not self.legal(s, env).any():
+            return "no_item_fits"
+        return None
+
+    # ---- C12 -------------------------------------------------------------------------------------
+    def observe(self, s, obs, env, cfg):
+        for f in ("weights", "values", "packed_items"):
+            a, b = np.asarray(getattr(obs, f)), np.asarray(getattr(s, f))
+            if a.shape != b.shape or a.tobytes() != b.tobytes():
+                return (f, f"obs.{f} {a.tolist()} != state.{f} {b.tolist()}")
+        m = np.asarray(obs.action_mask).astype(bool)
+        want = self.legal(s, env)  # "which items can be packed": not packed and weight <= remaining budget
+        if not np.array_equal(m, want):
+            i = int(np.flatnonzero(m != want)[0])
+            return ("action_mask", f"obs.action_mask[{i}] = {bool(m[i])} but {self.describe(s, env, (i,))}")
+        return None
+
+    # ---- policies ----------------------------------------------------------------------------------
+    def policy_complete(self, s, env, rng, legal):
+        """Lightest legal item first (packs the most items: the longest episodes)."""
+        if legal is None or not legal.any():
+            return None
+        w = np.where(legal, np.asarray(s.weights), np.inf)
+        return int(np.argmin(w))
+
+    def policy_survive(self, s, env, rng, legal):
+        """Heaviest legal item first (adversarial fill order: the bag is filled to the brim early)."""
+        if legal is None or not legal.any():
+            return None
+        w = np.where(legal, np.asarray(s.weights), -np.inf)
+        return int(np.argmax(w))
